@@ -268,8 +268,8 @@ def gen_value_arg(rng, prop):
     if prop == 'C03':
         k = rng.random()
         if k < 0.12:
-            which = rng.choice(['pd', 'pl', 'ro', 'ro', 'rl'])
-            if which in ('ro', 'rl'):
+            which = rng.choice(['pd', 'pl', 'ro', 'ro', 'rl', 'mn'])
+            if which in ('ro', 'rl', 'mn'):
                 return ['typed', which, rng.choice([False, True, 'scoped', 'scoped'])]
             return ['typed', which, rng.random() < 0.6]
         if k < 0.3:
@@ -2103,6 +2103,8 @@ ORACLES['C03'] = C03Oracle
 
 
 CANARIES_BY_PROP['C03'] = {
+    'typed_list_min_size_unchecked': _canary(
+        _L, 'List', 'custom_apply', 'and len(self) < value_spec.min_size):', 'and False):'),
     'validate_foreign_member_in_place': _canary(
         _D, 'Dict', '_formalized_value', 'if isinstance(value, (dict, list)):', 'if False:'),
     'dict_skips_apply_for_symbolic': _canary(
